@@ -36,6 +36,7 @@ func measuredRead(c *chunkReader) (o readObs, alloc uint64, hung bool) {
 
 func corrC04(r *Run) {
 	r.Import("Model.PduRun")
+	r.Import("Model.PduAllocRun")
 	r.PerShard(80)
 	r.Rule = "arbitrary octets under arbitrary read schedules: unstructured random strings; a valid header of every registered command_id (and unknown ids) " +
 		"followed by arbitrary body octets; every kind of command_length lie (0..15, 16, exact, short, long, 65536, 65537, 2^31, 2^32-1); mutated and truncated valid frames; " +
@@ -94,6 +95,11 @@ func corrC04(r *Run) {
 			r.Hist["alloc<=64KiB"] += b2i(alloc > 4096 && alloc <= 65536)
 			r.Hist["alloc<=512KiB"] += b2i(alloc > 65536 && alloc <= 8*65536)
 			r.Hist["alloc<=4MiB"] += b2i(alloc > 8*65536 && alloc <= 64*65536)
+		}
+		if measure && caseBudget > 0 && len(data) < 6000 && o.Kind != "hang" {
+			// the octets the model says the library requested were really allocated (and more: runtime overhead)
+			r.Case(fmt.Sprintf("requested <= allocated(%d) %s", alloc, shortHex(data)),
+				fmt.Sprintf("run_alloc %s %s <=? %d", coqHex(data), schedTerm(sched), alloc))
 		}
 		if caseBudget > 0 && len(data) < 6000 && o.Kind != "hang" && o.Kind != "neither" {
 			caseBudget--
